@@ -202,4 +202,174 @@ def C16(tier):
                             candidate_count_for_array_law='1..10^7', rules_constructed=tokrun.RULES))
 
 
+def _layout_jobs(tier):
+    from harness import tokrun
+    import itertools
+    jobs = []
+    quick = tier != 'thorough'
+    for st, T in tokrun.STRUCTS.items():
+        gaps = tokrun.struct_gaps(T)
+        nref = tokrun.struct_nrefs(T)
+        if quick:
+            gapsets = [[]] + [[g] for g in gaps]
+        else:
+            gapsets = [[]] + [[g] for g in gaps] + [list(p) for p in itertools.combinations(gaps, 2)]
+        width = 3 if quick else 4
+        windows = [list(range(i, i + width)) for i in range(1, max(nref, 1) + 1, width)] if nref else [[]]
+        for w in windows:
+            # spread the gap sets over a few jobs
+            k = 1 if quick else 4
+            for part in range(k):
+                gs = gapsets[part::k]
+                if gs:
+                    jobs.append(dict(kind='token', mode='wellformed', name='well-formed %s refs %s gaps part %d' % (st, w, part), struct=st, symrefs=w,
+                                     gapsets=gs, budget_s=300 if quick else 1500, weight=2))
+    return jobs
+
+
+def C15(tier):
+    from harness import tokrun
+    jobs = _layout_jobs(tier)
+    return dict(jobs=jobs, level_text='symbolic execution of the real BLT reader on renderings of election structures written down independently of the reader: '
+                'multipliers are numerals of unbounded symbolic ints, each candidate reference in a window is a symbolic choice between number and nickname, a symbolic comment '
+                'token sits in one (thorough: two) of the gaps; on every path every public attribute of the parsed profile equals the structure (multipliers and ballot total by solver query)',
+                assumptions=TOKEN_ASSUME + ['structures: harness/tokrun.py STRUCTS (5 elections: options, -n and [withdrawn], [undeclared], [tie], [nick], [droop], ballot ids, equal ranks, '
+                                            'quoted names with spaces / comment markers, source and comment strings, a ballot naming only withdrawn candidates)'],
+                require_reach=['accepted', 'layout-compared'],
+                bounds=dict(structures=list(tokrun.STRUCTS), comment_tokens=tokrun.COMMENT_TOKENS, multipliers='1..10^9 symbolic', symbolic_reference_window=3 if tier != 'thorough' else 4,
+                            gaps='end of every line, one at a time' + ('; all pairs' if tier == 'thorough' else '')))
+
+
+# ---------------------------------------------------------------------------------------------------
+# differential / metamorphic checks
+
+FX3 = {'arithmetic': 'fixed', 'precision': 3, 'omega': 2}
+RULE_CFGS = [('wigm', grid.FX2), ('wigm', grid.G44), ('wigm-prf', {}), ('wigm-prf-batch', {}), ('cfer', {}), ('cfer-batch', {}), ('scotland', {}),
+             ('mpls', {}), ('qpq', {}), ('meek', FX3), ('warren', FX3), ('meek-prf', {})]
+
+DIFF_ASSUME = COUNT_ASSUME + ['both elections of a pair are counted by the real code on the same path; numeric record fields are compared by solver query, '
+                              'structure (tags, messages, statuses) concretely; counterexamples are rebuilt as two BLT texts and recounted on the pristine code, '
+                              'where report/dump/json are compared byte for byte as well']
+LEVEL_DIFF = ('differential bounded symbolic execution of the real code: two (or more) elections derived from the same symbolic ballots are counted on every '
+              'feasible path and their records compared; unsat of "some field differs" on every path')
+
+
+def djob(mode, rule, opts, n, seats, maxlen, N, budget=300, **kw):
+    d = dict(kind='diff', mode=mode, rule=rule, opts=dict(opts), n=n, seats=seats, maxlen=maxlen, N=N, budget_s=budget, weight=kw.pop('weight', 2))
+    d['name'] = '%s %s %s n=%d seats=%d len<=%d N<=%d %s' % (mode, rule, ','.join('%s=%s' % kv for kv in sorted(opts.items())), n, seats, maxlen, N,
+                                                          ' '.join('%s=%s' % kv for kv in sorted(kw.items()) if kv[0] not in ('optionsA', 'optionsB')))
+    d.update(kw)
+    return d
+
+
+def C10(tier):
+    jobs = []
+    quick = tier != 'thorough'
+    N = 5 if quick else 6
+    for rule, opts in RULE_CFGS:
+        slow = rule in ('qpq', 'meek-prf') or opts.get('arithmetic') == 'guarded'
+        for seats in ((2,) if quick else (1, 2)):
+            jobs.append(djob('split', rule, opts, 3, seats, 2 if (slow and quick) else 3, N - (1 if slow else 0), budget=300 if quick else 1500))
+    if not quick:
+        for rule, opts in [('wigm-prf-batch', {}), ('cfer-batch', {}), ('mpls', {}), ('meek', FX3)]:
+            jobs.append(djob('split', rule, opts, 4, 2, 2, 5, budget=1500))
+        jobs.append(djob('split', 'wigm', grid.RAT, 3, 2, 2, 4, budget=1500))
+    tj = _layout_jobs(tier)
+    return dict(jobs=jobs + tj, level_text=LEVEL_DIFF + '; plus token-mode layout variants of the reader (see C15)', assumptions=DIFF_ASSUME + TOKEN_ASSUME,
+                require_reach=['pair-compared', 'layout-compared'],
+                bounds=dict(presentations='ballot lines reversed and every line split in two with multipliers m-s and s (0<=s<=m symbolic)',
+                            candidates=3, ballots_max=N, rules=[r for r, _ in RULE_CFGS], layout='see C15 evidence'))
+
+
+def C11(tier):
+    jobs = []
+    quick = tier != 'thorough'
+    for rule, opts in RULE_CFGS:
+        slow = rule in ('qpq', 'meek-prf') or opts.get('arithmetic') == 'guarded'
+        jobs.append(djob('perm', rule, opts, 3, 2, 2 if slow else 3, 4 if slow else 5, symtie=True, budget=300 if quick else 1500, weight=4))
+        if not quick:
+            jobs.append(djob('perm', rule, opts, 3, 1, 3, 5, symtie=True, budget=1500, weight=4))
+        for w in ((2,) if quick else (1, 2, 4)):
+            jobs.append(djob('withdraw', rule, opts, 4, 2, 2, 5 if not slow else 4, w=w, budget=300 if quick else 1500, weight=3))
+    if not quick:
+        for rule, opts in [('wigm-prf', {}), ('scotland', {}), ('cfer-batch', {}), ('meek', FX3)]:
+            jobs.append(djob('perm', rule, opts, 4, 2, 2, 5, symtie=True, perm_limit=6, budget=1500, weight=6))
+    return dict(jobs=jobs, level_text=LEVEL_DIFF, assumptions=DIFF_ASSUME, require_reach=['pair-compared'],
+                bounds=dict(renumbering='all permutations of 3 candidate ids (thorough: 6 sampled of 4), names, tie ranks (symbolic) and rankings carried along',
+                            withdrawal='candidate w of 4 withdrawn vs deleted from the list and every ranking', ballots_max=5,
+                            rules=[r for r, _ in RULE_CFGS]))
+
+
+PERTURB = [
+    ({'arithmetic': 'rational', 'precision': 7, 'display': 3}, 'arithmetic=rational precision=7 display=3'),
+    ({'arithmetic': 'guarded', 'precision': 12, 'guard': 5, 'omega': 3}, 'arithmetic=guarded precision=12 guard=5 omega=3'),
+    ({'arithmetic': 'integer', 'integer_quota': True, 'defeat_batch': 'none', 'display': 0}, 'integer integer_quota=true defeat_batch=none display=0'),
+]
+STATUTORY = ['wigm-prf', 'wigm-prf-batch', 'meek-prf', 'scotland', 'mpls', 'cfer', 'cfer-batch', 'qpq']
+
+
+def C17(tier):
+    jobs = [dict(kind='misc', mode='options', name='option layers: presence 2^4 x symbolic values', budget_s=300,
+                 names=['precision', 'omega', 'display', 'guard', 'zzz'])]
+    quick = tier != 'thorough'
+    for rule in STATUTORY:
+        slow = rule in ('qpq', 'meek-prf')
+        for k, (pd, ptxt) in enumerate(PERTURB):
+            if quick and (k + STATUTORY.index(rule)) % 3 != 0 and rule not in ('scotland',):
+                srcs = ['cmd'] if k == STATUTORY.index(rule) % 3 else []
+            else:
+                srcs = ['cmd', 'file', 'both']
+            for src in srcs:
+                optsB = dict(rule=rule)
+                extraB = ''
+                if src in ('cmd', 'both'):
+                    optsB.update(pd)
+                if src in ('file', 'both'):
+                    extraB = '[droop %s]' % ptxt
+                jobs.append(djob('opts', rule, {}, 3, 2, 2 if slow else 3, 4 if slow else 5, optionsA=dict(rule=rule), optionsB=optsB, extraB=extraB,
+                                 budget=300 if quick else 1500, perturb='%s:%d' % (src, k)))
+    return dict(jobs=jobs, level_text=LEVEL_DIFF + '; option layering: the real Options methods run on symbolic option values for every presence pattern of the four layers',
+                assumptions=DIFF_ASSUME, require_reach=['pair-compared', 'layer-assignments'],
+                bounds=dict(perturbations=[p for _, p in PERTURB], sources=['caller', '[droop ...] line', 'both'], statutory_rules=STATUTORY,
+                            candidates=3, ballots_max=5))
+
+
+def C19(tier):
+    jobs = []
+    quick = tier != 'thorough'
+    for rule, opts in RULE_CFGS:
+        slow = rule in ('qpq', 'meek-prf') or opts.get('arithmetic') == 'guarded'
+        for N in ((4,) if quick else (3, 4, 5)):
+            jobs.append(dict(kind='misc', mode='interrupt', name='interrupt %s %s n=3 seats=2 len<=2 N=%d' % (rule, sorted(opts.items()), N), rule=rule,
+                             opts=dict(opts), n=3, seats=2, maxlen=2, N=N, budget_s=300 if quick else 1500, weight=3 if slow else 1))
+    return dict(jobs=jobs, level_text='bounded symbolic execution of the real count under a line tracer: on every feasible path (all ballot multisets with the stated total) the '
+                'interrupted renderings are evaluated at the first line event of every distinct record state; a syntactic check of the count path (no try/finally/with, '
+                'no handler that could swallow KeyboardInterrupt) justifies that raising at an event leaves exactly the state of that event; failing states are replayed '
+                'with a real KeyboardInterrupt raised from sys.settrace on the pristine code',
+                assumptions=COUNT_ASSUME + ['ballot total fixed per job (the report header prints it with %d); renderers only append the interrupt log and set intr_logged (undone after each virtual interruption)'],
+                require_reach=['record-states', 'before-header'],
+                bounds=dict(rules=[r for r, _ in RULE_CFGS], candidates=3, ranking_length=2, ballot_total=[4] if quick else [3, 4, 5], seats=2,
+                            interruption_points='every line event of package code inside Election.count(), grouped by record state'))
+
+
+def C20(tier):
+    jobs = []
+    quick = tier != 'thorough'
+    cfgs = RULE_CFGS + [('wigm', {'arithmetic': 'integer'}), ('wigm', {}), ('wigm', dict(grid.G44, display=6)), ('meek', grid.G44),
+                        ('wigm', {'arithmetic': 'guarded', 'precision': 3, 'guard': 0})]
+    for rule, opts in cfgs:
+        slow = rule in ('qpq', 'meek-prf') or opts.get('arithmetic') in ('guarded', None) and rule in ('wigm', 'meek')
+        jobs.append(dict(kind='misc', mode='havoc', name='havoc %s %s' % (rule, sorted(opts.items())), rule=rule, opts=dict(opts), n=3, seats=2, maxlen=2,
+                         N=4 if (quick or slow) else 5, budget_s=300 if quick else 1500, weight=3 if slow else 1))
+        jobs.append(djob('twice', rule, opts, 3, 2, 2, 4, budget=300, **(dict(equal=grid.EQUAL_LINES) if rule in ('meek', 'warren') else {})))
+    jobs.append(dict(kind='misc', mode='havoc', name='havoc wigm rational', rule='wigm', opts=dict(grid.RAT), n=3, seats=1, maxlen=2, N=4, budget_s=300))
+    return dict(jobs=jobs, level_text='inductive step instead of histories: every class/module attribute that any election can leave changed (measured on a predecessor family, reported '
+                'with its static AST superset) is havocked to a poison value before the election under test is constructed and counted symbolically on every feasible path; '
+                'no poison read and a record equal to the unhavocked one covers every history; a hit is confirmed by a concrete predecessor search in fresh interpreters',
+                assumptions=COUNT_ASSUME + ['the measured write set is complete for the predecessor family listed in harness/miscrun.py (every arithmetic x several precision/guard/display settings x 9 rules)',
+                                            'real __str__ of the value class is exercised on concrete values after havoc (formatting state); the count itself uses the placeholder'],
+                require_reach=['havoc-run', 'pair-compared'],
+                bounds=dict(configurations=['%s %s' % (r, sorted(o.items())) for r, o in cfgs], candidates=3, ballots_max=4))
+
+
 REGISTRY = {k: v for k, v in globals().items() if k[0] == 'C' and k[1:].isdigit()}
